@@ -695,7 +695,12 @@ pub fn linearizable(initial: &Heap, events: &[Event], budget: u64) -> LinResult 
         // in it, two million states would take hours (and the run would be taken for one that does
         // not terminate) - the budget is spent in proportion, and a search that runs out of it
         // gives no verdict (`lin_gave_up`), never a violation
+        let before = *states;
         *states += 1 + heap.lists.iter().map(|l| l.len() as u64).sum::<u64>() / 32;
+        if before / 4096 != *states / 4096 {
+            // (the search is bounded by its budget; the watchdog of the parent should see it move)
+            crate::sched::beat();
+        }
         if *states > budget {
             return None;
         }
